@@ -14,13 +14,13 @@ WT=/tmp/seedwt_$P$K; git -C /repo worktree remove --force $WT >/dev/null 2>&1; r
 git -C /repo worktree add -q --detach $WT HEAD || exit 2
 mkdir -p $OUT; [ $SRC != $OUT ] && { cp $SRC/patch.diff $SRC/demo.cpp $OUT/; cp $SRC/meta.txt $OUT/agent_meta.txt 2>/dev/null; }
 cd $WT && git checkout -q -- . && git apply --check $SRC/patch.diff || { echo "patch does not apply"; exit 2; }
-DEMOFLAGS="-std=c++17 -pthread -I$WT/include"
-grep -q "fsanitize" $OUT/agent_meta.txt 2>/dev/null && DEMOFLAGS="$DEMOFLAGS -g -fsanitize=address,undefined -fno-sanitize-recover=all"
+DEMOFLAGS="-std=c++17 -pthread -I$WT/include"; CXX=g++
+grep -q "fsanitize" $OUT/agent_meta.txt 2>/dev/null && { CXX=clang++; DEMOFLAGS="$DEMOFLAGS -g -fsanitize=address,undefined -fno-sanitize-recover=all"; }
 # demo without the change
-g++ $DEMOFLAGS $SRC/demo.cpp -o /tmp/demo_$P$K.clean 2>/tmp/demo_$P$K.err; CLEAN_COMPILE=$?
+$CXX $DEMOFLAGS $SRC/demo.cpp -o /tmp/demo_$P$K.clean 2>/tmp/demo_$P$K.err; CLEAN_COMPILE=$?
 if [ $CLEAN_COMPILE -eq 0 ]; then timeout 120 /tmp/demo_$P$K.clean >/tmp/demo_$P$K.out 2>&1; CLEAN_RC=$?; else CLEAN_RC=-1; fi
 git apply $SRC/patch.diff
-g++ $DEMOFLAGS $SRC/demo.cpp -o /tmp/demo_$P$K.mut 2>/tmp/demo_$P$K.err2; MUT_COMPILE=$?
+$CXX $DEMOFLAGS $SRC/demo.cpp -o /tmp/demo_$P$K.mut 2>/tmp/demo_$P$K.err2; MUT_COMPILE=$?
 if [ $MUT_COMPILE -eq 0 ]; then timeout 120 /tmp/demo_$P$K.mut >/tmp/demo_$P$K.out2 2>&1; MUT_RC=$?; else MUT_RC=-1; fi
 # test-suite with the change
 rm -rf $WT/_b; cmake -G Ninja -S $WT -B $WT/_b -DCMAKE_BUILD_TYPE=RelWithDebInfo -DCMAKE_CXX_FLAGS=-Wno-error >/dev/null 2>&1 && cmake --build $WT/_b >/tmp/demo_$P$K.build 2>&1
